@@ -11,7 +11,7 @@ import vlib, clilib
 
 PID = "C18"
 VALID = {"defines", "usesOwn", "usesOther", "plain", "empty"}
-FAULTS = {"undecodable", "dirnamed", "dangling", "unserialisable", "faultDefines", "unencodable", "outdir"}
+FAULTS = {"undecodable", "dirnamed", "dangling", "unserialisable", "faultDefines", "unencodable", "outdir", "deepnest"}
 
 
 def content(kind, rnd):
@@ -29,7 +29,13 @@ def content(kind, rnd):
         nodes = [n for n in g.sheet() if n["t"] != "vars"]
         return clilib.render(nodes, rnd).encode("utf-8")
     if kind == "empty":
-        return rnd.choice([b"", b"\n", b"/* nothing here */\n"])
+        # nothing to adjust; sometimes valid CSS that does not survive parse + serialise byte for byte (an escape that need not be
+        # one, a form feed): the output of such a file is whatever the tool writes for it ALONE
+        return rnd.choice([b"", b"\n", b"/* nothing here */\n", b".h\\65ro{margin:0}\x0c\n.k{padding:1px}", b".a{color:#000000;background-color:#ffffff}\n.h\\65ro { top : 0 }\n",
+                           b".h\\65ro{margin:0}\x0c\n.k{padding:1px}", b".a{color:#000000;background-color:#ffffff}\n.h\\65ro { top : 0 }\n", b".open { margin: 0"])
+    if kind == "deepnest":
+        d = rnd.choice([1500, 3000])
+        return (b"@media screen {" * d) + b".a{color:#777777;background-color:#ffffff}" + (b"}" * d) + b"\n"
     if kind == "undecodable":
         return b"\xff\xfe\xfa .a{color:#777777}\n" if rnd.random() < 0.5 else ".a{color:#777}".encode("utf-16")
     if kind == "unserialisable":
@@ -56,6 +62,7 @@ def materialise(tree, root, rnd):
     stems = ["a", "m", "z", "B", "k9", "theme", "0x", "x.min", "v1.2", "lib.2024.min"]
     rnd.shuffle(stems)
     stems += ["f%02d" % j for j in range(len(tree))]       # (large trees: more slots than hand-picked names)
+    same_name = len(tree) <= 4 and rnd.random() < 0.3       # every file has the SAME name, each in a directory of its own
     dirs = ["", "sub", "sub/deep", "other"]
     paths = {}
     for s, kind in enumerate(tree, start=1):
@@ -63,6 +70,8 @@ def materialise(tree, root, rnd):
             continue
         d = rnd.choice(dirs)
         stem = stems[s]
+        if same_name:
+            d, stem = dirs[(s - 1) % len(dirs)], stems[0]
         name = (stem + "_cm.css") if kind == "cm" else (stem + ".css")
         rel = os.path.join(d, name) if d else name
         full = os.path.join(root, rel)
@@ -231,12 +240,13 @@ def main():
     n = 110 if t == "quick" else len(trees) * 2
     interesting = [tr for tr in trees if any(k in FAULTS or k == "cm" or k == "usesOther" for k in tr)]
     interesting += [tr for tr in trees if "faultDefines" in tr and "usesOther" in tr] * 3
+    interesting += [tr for tr in trees if "empty" in tr and any(k in tr for k in ("defines", "usesOwn", "plain"))] * 2
     chosen = [rnd.choice(interesting) if k % 4 else rnd.choice(trees) for k in range(n)] if t == "quick" else trees * 2
     jobs = [(tr, rnd.randrange(1 << 30), (k % 3, bool((k // 3) & 1), rnd.choice([None, None, "#000000", "white", "var(--bg, white)", "var(--c, #fafafa)"])))
             for k, tr in enumerate(chosen)]
     # large trees (30-50 files, mostly files with their own :root block, a few faults): whatever a run keeps between files
     # (tables, maps keyed by object identity, descriptors) has dozens of chances to reach a later file
-    big_kinds = ["defines", "usesOwn", "usesOwn", "plain", "usesOther", "defines", "empty", "undecodable", "unserialisable", "faultDefines"]
+    big_kinds = ["defines", "usesOwn", "usesOwn", "plain", "usesOther", "defines", "empty", "undecodable", "unserialisable", "faultDefines", "deepnest"]
     for k in range(4 if t == "quick" else 60):
         tr = tuple(rnd.choice(big_kinds) for _ in range(rnd.choice([30, 40, 50])))
         jobs.append((tr, rnd.randrange(1 << 30), (k % 3, False, None)))
